@@ -3,6 +3,7 @@
 package main
 
 import (
+	"path/filepath"
 	"encoding/json"
 	"flag"
 	"fmt"
@@ -80,6 +81,7 @@ func main() {
 	}
 	exit := 0
 	var prog *Program
+	var forms *formSet
 	for _, id := range ids {
 		p, ok := registry[id]
 		if !ok {
@@ -103,6 +105,10 @@ func main() {
 			exit = 1
 			continue
 		}
+		if forms == nil {
+			forms = newFormSet(prog, loadOptions{})
+		}
+		withdrawOnNormalForms(c, forms, *verbose)
 		extra := map[string]interface{}{}
 		if *tier == "thorough" && !*noEvidence {
 			thorough(prog, p, c, seed, extra)
@@ -244,6 +250,32 @@ func doDump(what, repo string) int {
 		for _, f := range prog.Funcs {
 			for _, e := range cg.Out[f] {
 				fmt.Printf("%s -> %s [%d] %s\n", prog.fname(f), prog.fname(e.Callee), e.Kind, prog.ipos(e.Site))
+			}
+		}
+	case "inline":
+		fs := newFormSet(prog, loadOptions{})
+		for _, nfo := range normalFormOrder {
+			nf := fs.form(nfo.kind, nfo.rounds, nil)
+			if nf.Err != nil {
+				fmt.Printf("form %s%d: ERROR %v\n", nfo.kind, nfo.rounds, nf.Err)
+			} else {
+				fmt.Printf("form %s: %d calls inlined, %d functions\n", nf.Name, nf.N, len(nf.Prog.SrcFunc))
+			}
+			if dir := os.Getenv("RESTCHECK_DUMP_DIR"); dir != "" {
+				cur := prog
+				if nfo.rounds > 1 {
+					if pv := fs.form(nfo.kind, nfo.rounds-1, nil); pv.Prog != nil {
+						cur = pv.Prog
+					}
+				}
+				ov, _, err := cur.inlineRoundKind(nfo.rounds, nfo.kind, nil, false)
+				if err == nil {
+					d := filepath.Join(dir, nfo.kind+strconv.Itoa(nfo.rounds))
+					os.MkdirAll(d, 0o755)
+					for name, b := range ov {
+						os.WriteFile(filepath.Join(d, filepath.Base(name)), b, 0o644)
+					}
+				}
 			}
 		}
 	case "funcs":
